@@ -55,7 +55,7 @@ Section Step.
     replace (pv + 0 + 0 + 0) with pv by ring. replace (pv + d + 0 + 0 + 0) with (pv + d) by ring.
     assert (Z0 : 0 / pv = 0) by (unfold Qcdiv; ring). assert (Z1 : 0 / (pv + d) = 0) by (unfold Qcdiv; ring).
     rewrite Z0, Z1.
-    destruct (qltb_spec (qfrac 1 1000) pv) as [P|P]; destruct (qltb_spec (qfrac 1 1000) (pv + d)) as [P'|P'].
+    destruct (qltb_spec 0 pv) as [P|P]; destruct (qltb_spec 0 (pv + d)) as [P'|P'].
     - rewrite (div_self pv) by (intro; subst; qlra). rewrite (div_self (pv + d)) by (intro K; rewrite K in P'; qlra).
       repeat split; qlra.
     - exfalso. qlra.
@@ -78,8 +78,8 @@ Section Step.
     replace (0 + chp + 0 + 0) with chp by ring.
     assert (Z0 : 0 / chp = 0) by (unfold Qcdiv; ring). rewrite Z0.
     destruct Zchp as [->|G].
-    - destruct (qltb_spec (qfrac 1 1000) 0) as [P|P]; [exfalso; qlra|]. repeat split; qlra.
-    - destruct (qltb_spec (qfrac 1 1000) chp) as [P|P]; [|exfalso; qlra].
+    - destruct (qltb_spec 0 0) as [P|P]; [exfalso; qlra|]. repeat split; qlra.
+    - destruct (qltb_spec 0 chp) as [P|P]; [|exfalso; qlra].
       rewrite (div_self chp) by (intro; subst; qlra). repeat split; qlra.
   Qed.
 End Step.
@@ -208,7 +208,7 @@ Section Annual.
     intros Hj. unfold a_used_src, ann, vec. apply qsum_map_zero. intros s Hs. destruct (Hy s Hs) as (pr & c & -> & [T E]).
     unfold s_used_src, sr. cbn [snd step_out so_src so_uts so_uea].
     destruct Hj as [->| ->]; destruct pr; cbn [snd step_out so_src so_uts so_uea used_src_f c_src fmatch]; try reflexivity; rewrite ?T, ?E;
-      destruct (qltb (qfrac 1 1000) (c_p c)); unfold Qcdiv; ring.
+      destruct (qltb 0 (c_p c)); unfold Qcdiv; ring.
   Qed.
 
   (** ** the weighted energy of the carrier under a regular factor set *)
@@ -307,11 +307,11 @@ Section NoCogen.
     assert (Zs : zg (pv + d)) by (apply zg_add; assumption).
     split.
     - destruct Zpv as [->|G].
-      + destruct (qltb_spec (qfrac 1 1000) 0) as [P|P]; [exfalso; qlra|]. qlra.
-      + destruct (qltb_spec (qfrac 1 1000) pv) as [P|P]; [|exfalso; qlra]. rewrite (div_self pv) by (intro; subst; qlra). ring.
+      + destruct (qltb_spec 0 0) as [P|P]; [exfalso; qlra|]. qlra.
+      + destruct (qltb_spec 0 pv) as [P|P]; [|exfalso; qlra]. rewrite (div_self pv) by (intro; subst; qlra). ring.
     - destruct Zs as [Z|G].
-      + rewrite Z. destruct (qltb_spec (qfrac 1 1000) 0) as [P|P]; [exfalso; qlra|]. qlra.
-      + destruct (qltb_spec (qfrac 1 1000) (pv + d)) as [P|P]; [|exfalso; qlra].
+      + rewrite Z. destruct (qltb_spec 0 0) as [P|P]; [exfalso; qlra|]. qlra.
+      + destruct (qltb_spec 0 (pv + d)) as [P|P]; [|exfalso; qlra].
         rewrite (div_self (pv + d)) by (intro K; rewrite K in G; qlra). ring.
   Qed.
 End NoCogen.
